@@ -76,6 +76,26 @@ pub fn check(sh: &Shared, case: &Case) -> Check {
         Ok(s2) => fail!("format:specific-differs", "format_narsese = {s:?}\nformat_<kind> = {s2:?}"),
         Err(p) => fail!("format:panic", "type-specific formatter panicked: {p}"),
     }
+    // the generic entry points (`format(&value)` / FormatTo) print the same text
+    let s3 = guard(|| {
+        use narsese::api::FormatTo;
+        let a = match &v {
+            Narsese::Term(t) => f.format(t),
+            Narsese::Sentence(x) => f.format(x),
+            Narsese::Task(x) => f.format(x),
+        };
+        let b: String = match &v {
+            Narsese::Term(t) => t.format_to(f),
+            Narsese::Sentence(x) => x.format_to(f),
+            Narsese::Task(x) => x.format_to(f),
+        };
+        (a, b)
+    });
+    match s3 {
+        Ok((a, b)) if a == s && b == s => {}
+        Ok((a, b)) => fail!("format:specific-differs", "format_narsese = {s:?}\nformat(&value) = {a:?}\nformat_to = {b:?}"),
+        Err(p) => fail!("format:panic", "generic formatter entry point panicked: {p}"),
+    }
     let r: Result<Result<Narsese, _>, String> = guard(|| f.parse::<Narsese>(&s));
     let w = match r {
         Err(p) => fail!("parse:panic", "text {s:?}\npanic {p}"),
